@@ -545,10 +545,12 @@ func (c *Conn) Flush() (err error) {
 
 	for {
 		n, err := c.c.Write(c.outputBuffer.head.buf[c.outputBuffer.head.off:c.outputBuffer.head.malloc])
+		// The first n bytes went out even when err != nil (write deadline, for instance):
+		// account for them, so that a repeated Flush does not send them a second time.
+		c.outputBuffer.head.off += n
 		if err != nil {
 			return err
 		}
-		c.outputBuffer.head.off += n
 		if c.outputBuffer.head == c.outputBuffer.write {
 			// If the capacity of buffer is less than 8k, then just reset the node
 			if c.outputBuffer.head.recyclable() {
